@@ -42,6 +42,10 @@ SPECS = {
     "df": ["dict", "float", "float"],
     "si": ["set", "int"],
     "sf": ["set", "float"],
+    # declared with items=False (no `<name>_items` event): validated exactly like the others
+    "dni": ["dict", "str", "int"],
+    "dnl": ["dict", "int", ["list", "int", 0, BIG]],
+    "lni": ["list", "int", 0, BIG],
 }
 
 
@@ -65,6 +69,9 @@ class Holder(HasTraits):
     df = Dict(Float, Float)
     si = Set(Int)
     sf = Set(Float)
+    dni = Dict(Str, Int, items=False)
+    dnl = Dict(Int, List(Int), items=False)
+    lni = List(Int, items=False)
     # declared with a lower bound but WITHOUT a default of its own (the implicit [] is too short): whatever reading it
     # does, it never hands out a list that violates the bound
     lnd = List(Int, minlen=2)
@@ -277,6 +284,10 @@ def op_strategy():
     alts.append(st.tuples(st.just(["di"]), dict_ops("str", "int")).map(list))
     alts.append(st.tuples(st.just(["dl"]), dict_ops("int", "lint")).map(list))
     alts.append(st.tuples(st.just(["df"]), dict_ops("float", "float")).map(list))
+    alts.append(st.tuples(st.just(["dni"]), dict_ops("str", "int")).map(list))
+    alts.append(st.tuples(st.just(["dnl"]), dict_ops("int", "lint")).map(list))
+    alts.append(st.tuples(st.tuples(st.just("dnl"), IDX).map(list), list_ops("int")).map(list))
+    alts.append(st.tuples(st.just(["lni"]), list_ops("int")).map(list))
     alts.append(st.tuples(st.just(["si"]), set_ops("int")).map(list))
     alts.append(st.tuples(st.just(["sf"]), set_ops("float")).map(list))
     return st.one_of(alts)
@@ -526,7 +537,7 @@ def run(case, ctx):
         o.on_trait_change(lambda obj, nm, old, new: ev.append(nm), n + "_items")
         o.on_trait_change(lambda obj, nm, old, new: ev.append(nm), n)
         o.observe(lambda e: ev.append("observe"), n + ".items")
-    for n in ("ll", "lbb", "dl"):
+    for n in ("ll", "lbb", "dl", "dnl"):
         o.observe(lambda e: ev.append("observe-inner"), n + ".items.items")
     interesting = False
     for dn, lo in (("lnd", 2), ("lnd1", 1)):
